@@ -78,3 +78,30 @@ Ltac finish_num extra :=
             | unify w' w; apply (f_equal (fun x : R => @Ok (val * world) (VNum (Fin x), w)));
               first [ring | field; repeat split; real_fact0 | (unfold Rdiv; ring)] ]
   end.
+
+(* ---- the same for an arbitrary interpreter run [f : world -> res (A * world)] (e.g. a method body whose final [self] is observed) ---- *)
+Definition yields_f {A} (f : world -> res (A * world)) (rg : nat -> R) (cu : nat) (v : A) (cu' : nat) (log : list (string * list val)) : Prop :=
+  exists ds w', f (World rg cu [] ds []) = Ok (v, w') /\ decs w' = [] /\ cur w' = cu' /\ olog w' = log /\ holds (pc w').
+Ltac yields_f_with fact finish :=
+  lazymatch goal with
+  | |- yields_f ?f ?rg ?cu ?v ?cu' ?log =>
+      find_answers fact (fun ds => f (World rg cu [] ds [])) (@nil bool)
+        ltac:(fun ds => exists ds; eexists; split;
+                [ run; finish
+                | cbn [decs cur olog pc holds]; repeat split; try reflexivity; try fact ])
+  end.
+(* run the body of a method and return the receiver as it is when the body ends (Python mutates [self] in place) *)
+Definition run_method (G : fenv) (fuel : nat) (fd : fundef) (self : val) (extra : env) (w : world) : res (val * world) :=
+  do ow <- exec G fuel (f_body fd) (("self", self) :: extra) w;
+  match fst ow with
+  | ONormal ρ => match lookup "self" ρ with Some s => Ok (s, snd ow) | None => Stuck "self lost" end
+  | OReturn _ => Stuck "method returned a value"
+  | OTail _ _ _ => Stuck "tail call" end.
+(* equality of interpreter results up to real arithmetic in the numeric leaves *)
+Ltac real_leaf := first [ reflexivity | ring | (field; repeat split; real_fact0) | lra ].
+Ltac val_eq :=
+  repeat lazymatch goal with
+         | |- @eq R _ _ => fail
+         | |- _ => first [ reflexivity | progress f_equal ]
+         end;
+  try (unfold Rminus; norm_dec; real_leaf).
